@@ -105,6 +105,8 @@ def strat_polars():
         "lazy": st.booleans(),
         "extra_col": st.booleans(),
         "strict": st.booleans(),
+        # the same column through the other public entry points: a standalone Column, a DataFrameModel
+        "entry": st.sampled_from(["schema", "schema", "column", "model"]),
     })
 
 
@@ -122,9 +124,17 @@ def eval_polars(case):
         cols["zz"] = pl.Series("zz", [1] * len(cells), dtype=pl.Int64)
     df = pl.DataFrame(cols)
     obj = df.lazy() if case["container"] == "LazyFrame" else df
-    schema = pap.DataFrameSchema({"a": pap.Column(pl.Int64 if case["dtype_ok"] else pl.Utf8, pa.Check.gt(case["min_value"]))},
-                                 strict=case["strict"])
-    schema_bad = (not case["dtype_ok"]) or (case["strict"] and case["extra_col"])
+    entry = case.get("entry", "schema")
+    dt = pl.Int64 if case["dtype_ok"] else pl.Utf8
+    if entry == "column":
+        schema = pap.Column(dt, pa.Check.gt(case["min_value"]), name="a")
+    elif entry == "model":
+        schema = type("M", (pap.DataFrameModel,), {
+            "__annotations__": {"a": dt}, "a": pap.Field(gt=case["min_value"]),
+            "Config": type("Config", (), {"strict": case["strict"]}), "__module__": __name__})
+    else:
+        schema = pap.DataFrameSchema({"a": pap.Column(dt, pa.Check.gt(case["min_value"]))}, strict=case["strict"])
+    schema_bad = (not case["dtype_ok"]) or (case["strict"] and case["extra_col"] and entry != "column")
     data_bad = case["dtype_ok"] and any(c <= case["min_value"] for c in cells)
     eff = case["depth"] or ("SCHEMA_ONLY" if case["container"] == "LazyFrame" else "SCHEMA_AND_DATA")
     want_reject = (schema_bad and eff != "DATA_ONLY") or (data_bad and eff != "SCHEMA_ONLY")
@@ -134,6 +144,12 @@ def eval_polars(case):
             ev.skipped = "data check on wrong-dtype column under DATA_ONLY"
             return ev
     ev.labels.append(f"polars:{case['container']}:depth={case['depth']}")
+    ev.labels.append("polars:entry=" + entry)
+    if entry == "column" and case["container"] == "LazyFrame" and case["depth"] is None:
+        # the documented schema-only default for LazyFrames is stated for DataFrameSchema / DataFrameModel; which depth a
+        # standalone Column applies to a LazyFrame when nothing is configured is not documented (it validates the data)
+        ev.skipped = "default depth of a standalone Column on a LazyFrame (undocumented)"
+        return ev
     ev.nontrivial = schema_bad != data_bad
     before = fp.config_state()
 
@@ -149,7 +165,8 @@ def eval_polars(case):
     else:
         rejected = o["kind"] != "ok"
         if rejected != want_reject:
-            ev.add(f"polars-depth-verdict:{case['container']}:depth={case['depth']}:{'accepts' if want_reject else 'rejects'}",
+            ev.add(f"polars-depth-verdict:{case['container']}:depth={case['depth']}:{'accepts' if want_reject else 'rejects'}"
+                   + ("" if entry == "schema" else ":entry=" + entry),
                    {"effective_depth": eff, "schema_bad": schema_bad, "data_bad": data_bad, "pandera": o["kind"],
                     "reasons": o.get("reasons")})
         elif not rejected and fp.kind_of(o["value"]) != "pl." + case["container"]:
@@ -163,6 +180,6 @@ def eval_polars(case):
 FAMILIES = [
     Family("depth", eval_depth, strategy=lambda: gen.repaired_case(), n_quick=300, n_thorough=3000, shards_quick=4,
            shards_thorough=16, required_labels=["ref:SO=A,DO=R", "ref:SO=R,DO=A", "ref:SO=A,DO=A"]),
-    Family("polars_default_depth", eval_polars, strategy=strat_polars, n_quick=600, n_thorough=3000, shards_quick=2,
-           shards_thorough=8),
+    Family("polars_default_depth", eval_polars, strategy=strat_polars, n_quick=700, n_thorough=3500, shards_quick=2,
+           shards_thorough=8, required_labels=["polars:entry=column", "polars:entry=model", "polars:entry=schema"]),
 ]
